@@ -70,12 +70,19 @@ Qed.
 
 (* ------------------------------------------------------------------ *)
 (* loops *)
+(* the init expression of a `for` may throw, once, before the loop *)
+Definition head_throws (s : stmt) : bool := match s with SFor _ i _ _ _ => oe_throws i | _ => false end.
+
 Lemma loop_shape_csem s pre b post ls :
-  loop_shape s = Some (pre, b, post) -> csem s ls = sem_loop pre post ls (csem b []).
+  loop_shape s = Some (pre, b, post) -> csem s ls = cunion (t_if (head_throws s)) (sem_loop pre post ls (csem b [])).
 Proof.
-  destruct s; cbn [loop_shape]; try discriminate; try (intros H; injection H as <- <- <-; reflexivity).
-  destruct c as [c|]; intros H; injection H as <- <- <-; reflexivity.
+  assert (E0 : forall c, cunion (t_if false) c = c) by (intros [n r t b0 c0 bl cl]; reflexivity).
+  destruct s; cbn [loop_shape]; try discriminate; intros H; injection H as <- <- <-; cbn [head_throws csem]; rewrite ?E0; reflexivity.
 Qed.
+
+Lemma loop_cin_intro s pre b post ls k :
+  loop_shape s = Some (pre, b, post) -> cin k (sem_loop pre post ls (csem b [])) = true -> cin k (csem s ls) = true.
+Proof. intros H Hk. rewrite (loop_shape_csem _ _ _ _ ls H), cin_cunion, Hk. apply orb_true_r. Qed.
 
 (* positions reachable through a function-like in the head of the loop *)
 Definition head_reach (s : stmt) : list N :=
@@ -84,8 +91,7 @@ Definition head_reach (s : stmt) : list N :=
 Lemma loop_shape_reach s pre b post :
   loop_shape s = Some (pre, b, post) -> reach s = pos s :: head_reach s ++ (if may_true pre then reach b else []).
 Proof.
-  destruct s; cbn [loop_shape]; try discriminate; try (intros H; injection H as <- <- <-; reflexivity).
-  destruct c as [c|]; intros H; injection H as <- <- <-; reflexivity.
+  destruct s; cbn [loop_shape]; try discriminate; intros H; injection H as <- <- <-; reflexivity.
 Qed.
 
 Definition again (ls : list N) (bc : comps) : bool := cN bc || cC0 bc || existsb (fun l => memN l ls) (cCL bc).
@@ -197,18 +203,19 @@ Proof.
   - cbn [csem]. rewrite cin_cunion, cin_t_if. rewrite H. reflexivity.
   - cbn [csem]. rewrite !cin_cunion. rewrite H, H1. rewrite orb_true_r. reflexivity.
   - cbn [csem]. rewrite !cin_cunion. rewrite H, H1. rewrite !orb_true_r. reflexivity.
-  - (* loops *) rewrite (loop_shape_csem _ _ _ _ ls H), cin_sem_loop. rewrite H0. reflexivity.
-  - rewrite (loop_shape_csem _ _ _ _ ls H), cin_sem_loop. rewrite H0. reflexivity.
-  - rewrite (loop_shape_csem _ _ _ _ ls H), cin_sem_loop. rewrite H0. cbn [cin] in H2. rewrite H2. cbn [andb orb]. apply orb_true_r.
-  - rewrite (loop_shape_csem _ _ _ _ ls H), cin_sem_loop. rewrite H0. cbn [andb].
+  - (* for: init throws *) cbn [csem]. rewrite cin_cunion, cin_t_if. cbn [oe_throws]. rewrite H. reflexivity.
+  - (* loops *) apply (loop_cin_intro _ _ _ _ ls _ H); rewrite cin_sem_loop. rewrite H0. reflexivity.
+  - apply (loop_cin_intro _ _ _ _ ls _ H); rewrite cin_sem_loop. rewrite H0. reflexivity.
+  - apply (loop_cin_intro _ _ _ _ ls _ H); rewrite cin_sem_loop. rewrite H0. cbn [cin] in H2. rewrite H2. cbn [andb orb]. apply orb_true_r.
+  - apply (loop_cin_intro _ _ _ _ ls _ H); rewrite cin_sem_loop. rewrite H0. cbn [andb].
     destruct k as [| [l|] | [l|] | |]; cbn [escapes continues negb] in H3; try discriminate; cbn [cin] in H2.
     + rewrite H2. apply orb_true_r.
     + rewrite H2, H3. apply orb_true_r.
     + rewrite H2. apply orb_true_r.
     + rewrite H2. cbn [orb]. apply orb_true_r.
-  - rewrite (loop_shape_csem _ _ _ _ ls H), cin_sem_loop. rewrite H0.
+  - apply (loop_cin_intro _ _ _ _ ls _ H); rewrite cin_sem_loop. rewrite H0.
     rewrite (continues_again _ _ _ H3 H2), H4. cbn [andb]. rewrite !orb_true_r. reflexivity.
-  - rewrite (loop_shape_csem _ _ _ _ ls H), cin_sem_loop. rewrite H0.
+  - apply (loop_cin_intro _ _ _ _ ls _ H); rewrite cin_sem_loop. rewrite H0.
     rewrite (continues_again _ _ _ H3 H2), H4. cbn [andb]. rewrite !orb_true_r. reflexivity.
   - assumption.
   - (* switch *) cbn [csem]. apply cin_unbreak. eapply suffix_any; eassumption.
@@ -284,7 +291,10 @@ Lemma loop_csem_exec s pre b post ls k :
   (forall k0, cin k0 (csem b []) = true -> exec [] b k0) ->
   cin k (csem s ls) = true -> exec ls s k.
 Proof.
-  intros Hs IH. rewrite (loop_shape_csem _ _ _ _ ls Hs), cin_sem_loop, orb_true_iff. intros [H|H].
+  intros Hs IH. rewrite (loop_shape_csem _ _ _ _ ls Hs), cin_cunion, cin_t_if, orb_true_iff. intros [H|H].
+  { destruct k; try discriminate. destruct s; cbn [head_throws] in H; try discriminate.
+    destruct i as [e|]; [|discriminate]. apply X_for_init_thr. exact H. }
+  revert H. rewrite cin_sem_loop, orb_true_iff. intros [H|H].
   - destruct k as [| [l|] | [l|] | |]; try discriminate.
     + eapply X_loop_pre_false; eassumption.
     + eapply X_loop_pre_thr; eassumption.
@@ -363,7 +373,7 @@ Proof.
     + destruct (may_false c) eqn:Hc; [|rewrite cin_cempty in H; discriminate]. apply X_ifelse_else; [exact Hc | apply IHb; exact H].
   - (* loops *) intros p c b IHb ls k H. eapply loop_csem_exec; [reflexivity | apply IHb | exact H].
   - intros p b IHb c ls k H. eapply loop_csem_exec; [reflexivity | apply IHb | exact H].
-  - intros p c b IHb ls k H. destruct c as [c|]; (eapply loop_csem_exec; [reflexivity | apply IHb | exact H]).
+  - intros p i c u b IHb ls k H. eapply loop_csem_exec; [reflexivity | apply IHb | exact H].
   - intros p b IHb ls k H. eapply loop_csem_exec; [reflexivity | apply IHb | exact H].
   - intros p b IHb ls k H. eapply loop_csem_exec; [reflexivity | apply IHb | exact H].
   - intros p g fp pb hb IHh b IHb ls k H. eapply loop_csem_exec; [reflexivity | apply IHb | exact H].
@@ -518,7 +528,7 @@ Proof.
     + destruct (may_false c) eqn:Hc; [|destruct H]. apply N_ifelse_else; [exact Hc | apply IHb; exact H].
   - intros p c b [IHb _]. split; [|exact I]. intros pi H. eapply loop_reach_enters; [reflexivity | intros pi' [] | exact IHb | exact H].
   - intros p b [IHb _] c. split; [|exact I]. intros pi H. eapply loop_reach_enters; [reflexivity | intros pi' [] | exact IHb | exact H].
-  - intros p c b [IHb _]. split; [|exact I]. intros pi H. destruct c as [c|]; (eapply loop_reach_enters; [reflexivity | intros pi' [] | exact IHb | exact H]).
+  - intros p i c u b [IHb _]. split; [|exact I]. intros pi H. eapply loop_reach_enters; [reflexivity | intros pi' [] | exact IHb | exact H].
   - intros p b [IHb _]. split; [|exact I]. intros pi H. eapply loop_reach_enters; [reflexivity | intros pi' [] | exact IHb | exact H].
   - intros p b [IHb _]. split; [|exact I]. intros pi H. eapply loop_reach_enters; [reflexivity | intros pi' [] | exact IHb | exact H].
   - intros p g fp pb hb [IHh _] b [IHb _]. split; [|exact I]. intros pi H.
